@@ -2,7 +2,9 @@ import Slu.Model.Lacon
 import Slu.Model.Cond
 import SluProofs.Lemmas.Lacon
 import SluProofs.Lemmas.Cond
+import SluProofs.Lemmas.LaconLow
 import SluProofs.Lemmas.FoldCongr
+import SluProofs.Lemmas.TrsvLayout
 /-
 C12 — Condition estimate is a valid one-sided bound; growth factor matches factors.
 
@@ -86,6 +88,48 @@ theorem gscon_one_sided (P : Prim K Rat) (hP : Lawful P) (n : Nat) (hn : 1 ≤ n
     rw [if_pos hb]
     exact div_le_div_of_nonneg_right (one_div_le_one_div_of_le hpos h1) (le_of_lt ha)
 
+/-- **C12 (the estimate from below).** If the forward map is bounded below, `c ‖x‖₁ ≤ ‖T x‖₁` on
+vectors of length `n` (for `T = A⁻¹`: `c = 1/‖A‖₁`), then the returned estimate is at least `c`: every
+candidate is `‖T w‖₁/‖w‖₁` for a NON-ZERO vector the machine built (`idamax` returns an index inside the
+vector, hypothesis `himax`, true for the exact instances: `primQ_imax`, `primQC_imax`). -/
+theorem lacon_ge_low (P : Prim K Rat) (hP : Lawful P) (himax : ∀ x : Array K, 0 < x.size → P.imax x < x.size)
+    (n : Nat) (hn : 1 ≤ n) (T Tt : Array K → Array K)
+    (hsT : ∀ x, x.size = n → (T x).size = n) (hsTt : ∀ x, x.size = n → (Tt x).size = n)
+    (c : Rat) (hT : ∀ x, x.size = n → c * P.asum x ≤ P.asum (T x)) :
+    c ≤ (run P T Tt maxCalls (init P n 0)).est :=
+  run_init_low P hP himax n c hn T Tt hsT hsTt hT 11 0 (lacon_terminates P T Tt n 0)
+
+/-- **C12 (rcond ≤ 1).** When the solves handed to `gscon` invert a matrix whose norm is `anorm`
+(`‖x‖₁ ≤ anorm ‖solve x‖₁`, i.e. `‖A y‖₁ ≤ ‖A‖₁ ‖y‖₁` for `y = A⁻¹ x`), the estimator times the norm is at
+least one, so the returned reciprocal condition number lies in `(0, 1]`. -/
+theorem rcond_le_one (P : Prim K Rat) (hP : Lawful P) (himax : ∀ x : Array K, 0 < x.size → P.imax x < x.size)
+    (n : Nat) (hn : 1 ≤ n) (onenrm : Bool) (solveN solveT : Array K → Array K)
+    (hsN : ∀ x, x.size = n → (solveN x).size = n) (hsT : ∀ x, x.size = n → (solveT x).size = n)
+    (anorm : Rat) (ha : 0 < anorm)
+    (hinv : ∀ x, x.size = n → P.asum x ≤ anorm * P.asum ((if onenrm then solveN else solveT) x)) :
+    0 < gscon P 0 1 onenrm solveN solveT n anorm ∧ gscon P 0 1 onenrm solveN solveT n anorm ≤ 1 := by
+  have hn0 : n ≠ 0 := by omega
+  have hs1 : ∀ x, x.size = n → ((if onenrm then solveN else solveT) x).size = n := by
+    cases onenrm <;> simpa using by assumption
+  have hs2 : ∀ x, x.size = n → ((if onenrm then solveT else solveN) x).size = n := by
+    cases onenrm <;> simpa using by assumption
+  have hlow := lacon_ge_low P hP himax n hn _ _ hs1 hs2 (1 / anorm) (fun x hx => by
+    have := hinv x hx
+    rw [div_mul_eq_mul_div, one_mul, div_le_iff₀ ha, mul_comm]
+    exact this)
+  have hr : gscon P 0 1 onenrm solveN solveT n anorm =
+      if (run P (if onenrm then solveN else solveT) (if onenrm then solveT else solveN) maxCalls (init P n 0)).est != 0
+      then (1 / (run P (if onenrm then solveN else solveT) (if onenrm then solveT else solveN) maxCalls (init P n 0)).est) / anorm else 0 := by
+    simp only [gscon, hn0, if_false]
+  generalize (run P (if onenrm then solveN else solveT) (if onenrm then solveT else solveN) maxCalls (init P n 0)).est = E at hlow hr
+  have hE : 0 < E := lt_of_lt_of_le (by positivity) hlow
+  have hb : (E != 0) = true := by simpa using ne_of_gt hE
+  rw [hr, if_pos hb]
+  refine ⟨by positivity, ?_⟩
+  rw [div_le_one ha, div_le_iff₀ hE]
+  have := (div_le_iff₀ ha).mp hlow
+  linarith
+
 /-- **C12 (warning).** `info = n+1` exactly when `rcond < eps`, otherwise `info` stays 0. -/
 theorem rcond_warn_iff (rcond eps : Rat) (n : Nat) :
     (warnInfo rcond eps n = n + 1 ↔ rcond < eps) ∧ (warnInfo rcond eps n = 0 ↔ ¬ rcond < eps) := by
@@ -150,22 +194,7 @@ theorem pivotGrowth_column_spec (A : CSC Rat) (inv : Array Nat) (F : LUFac Rat) 
   rw [colMaxU_spec F (fsupc + d) fsupc luptr nsupr d hf (by omega) (by omega) hx hn hnd habove]
   simp only [smin_eq_min, beq_iff_eq]
 
-/-
-**C12 (growth factor, whole scan) — goal, not yet proved (`pivotGrowth_spec_goal`).**
-  For well-formed supernodal storage (`xsup[0] = 0`, `xsup` strictly increasing up to
-  `xsup[nsuper+1] = n`, `fsupc j = xsup[k]` for `xsup[k] ≤ j < xsup[k+1]`,
-  `xlusup[j] = xlusup[fsupc] + (j - fsupc) * nsupr`, U's column rows distinct and above the supernode):
-    pivotGrowth ncols A perm_c F sml
-      = (List.range (min ncols n)).foldl (growthStep A (invPerm perm_c n) F) (1 / sml)
-  i.e. the loop over supernodes with the `nz_in_U` counter and the early `break` visits exactly the
-  columns `0 .. min(ncols,n)-1`, each once.  Proved above: each visited column contributes
-  `growthStep` (`pivotGrowth_column_spec`).  Missing: flattening of the two nested loops into one range
-  (concatenation of the ranges `[xsup k, xsup (k+1))`).  The correspondence check compares the whole
-  scan bit for bit with `[sdcz]PivotGrowth` and, in exact rationals, with the right-hand side above.
--/
-
-/-- the part of the whole-scan statement that is proved: one supernode = a fold of `growthStep` over
-its columns below `ncols` -/
+/-- one supernode = a fold of `growthStep` over its columns below `ncols` (step of `pivotGrowth_spec`) -/
 theorem pivotGrowth_spec_partial (ncols : Nat) (A : CSC Rat) (inv : Array Nat) (F : LUFac Rat) (rpg : Rat) (k : Nat)
     (hwf : ∀ d, d < min (F.L.xsup.getD (k + 1) 0) ncols - F.L.xsup.getD k 0 →
       F.L.fsupc (F.L.xsup.getD k 0 + d) = F.L.xsup.getD k 0 ∧
@@ -185,6 +214,98 @@ theorem pivotGrowth_spec_partial (ncols : Nat) (A : CSC Rat) (inv : Array Nat) (
   obtain ⟨h1, h2, h3, h4, h5⟩ := hwf d (List.mem_range.mp hd)
   exact pivotGrowth_column_spec A inv F _ _ _ d acc h1 h2 h3 h4 h5
 
+/-- `ratio_j = max|A_j| / max|U_j|` (`1` for an all-zero column of U), `A_j` the column of `A` that
+`perm_c` maps to `j`, `max|U_j|` read from the decoded upper factor `decodeUg` -/
+def growthRatio (A : CSC Rat) (inv : Array Nat) (F : LUFac Rat) (j : Nat) : Rat :=
+  if colMaxUspec F j = 0 then 1 else colMaxAbs (R := Rat) A (inv.getD j 0) / colMaxUspec F j
+
+theorem growthStep_eq_min (A : CSC Rat) (inv : Array Nat) (F : LUFac Rat) (rpg : Rat) (j : Nat) :
+    growthStep A inv F rpg j = min rpg (growthRatio A inv F j) := by
+  unfold growthStep growthRatio
+  dsimp only
+  split <;> rfl
+
+/-- **C12 (growth factor, whole scan).** For supernodal storage laid out as the scan assumes
+(`xsup[0] = 0`, `xsup` strictly increasing up to `xsup[nsuper+1] = n`; for every column `j = xsup[k] + d`
+of supernode `k`: `fsupc j = xsup[k]`, `xlusup[j] = xlusup[xsup[k]] + d * nsupr`, U's column rows
+distinct and above the supernode) and EVERY `ncols` (below, equal to or above `n`): the loop over the
+supernodes with the `nz_in_U` counter and the early `break` at `j >= ncols` visits exactly the columns
+`0 .. min(ncols,n)-1`, each once, in order, and each contributes `min(rpg, ratio_j)`. -/
+theorem pivotGrowth_spec (ncols : Nat) (A : CSC Rat) (perm_c : Array Nat) (F : LUFac Rat) (sml : Rat)
+    (h0 : F.L.xsup.getD 0 0 = 0) (hlast : F.L.xsup.getD (F.L.nsuper + 1) 0 = F.L.n)
+    (hinc : ∀ k, k < F.L.nsuper + 1 → F.L.xsup.getD k 0 < F.L.xsup.getD (k + 1) 0)
+    (hcol : ∀ k, k < F.L.nsuper + 1 → ∀ d, d < F.L.xsup.getD (k + 1) 0 - F.L.xsup.getD k 0 →
+      F.L.fsupc (F.L.xsup.getD k 0 + d) = F.L.xsup.getD k 0 ∧
+      F.L.xlusup[F.L.xsup.getD k 0 + d]! = F.L.xlusup.getD (F.L.xsup.getD k 0) 0 +
+        d * (F.L.xlsub.getD (F.L.xsup.getD k 0 + 1) 0 - F.L.xlsub.getD (F.L.xsup.getD k 0) 0) ∧
+      F.L.nsupr (F.L.xsup.getD k 0 + d) = F.L.xlsub.getD (F.L.xsup.getD k 0 + 1) 0 - F.L.xlsub.getD (F.L.xsup.getD k 0) 0 ∧
+      ((F.U.col (F.L.xsup.getD k 0 + d)).map Prod.fst).Nodup ∧
+      ∀ e ∈ F.U.col (F.L.xsup.getD k 0 + d), e.1 < F.L.xsup.getD k 0) :
+    pivotGrowth (R := Rat) ncols A perm_c F sml =
+      (List.range (min ncols F.L.n)).foldl (growthStep A (invPerm perm_c A.n) F) (1 / sml) := by
+  unfold pivotGrowth
+  dsimp only
+  rw [pgFold_flat ncols A (invPerm perm_c A.n) F (growthStep A (invPerm perm_c A.n) F) (1 / sml) (F.L.nsuper + 1) h0 hinc
+    (fun k hk rpg => pivotGrowth_spec_partial ncols A (invPerm perm_c A.n) F rpg k
+      (fun d hd => hcol k hk d (by omega))), hlast, Nat.min_comm]
+
+/-- **C12 (growth factor = the minimum).** Under the hypotheses of `pivotGrowth_spec` the result is
+`min(1/smlnum, min_{j < min(ncols,n)} ratio_j)`: it is below `1/smlnum` and below every `ratio_j`, and it
+is one of them. -/
+theorem pivotGrowth_is_min (ncols : Nat) (A : CSC Rat) (perm_c : Array Nat) (F : LUFac Rat) (sml : Rat)
+    (hspec : pivotGrowth (R := Rat) ncols A perm_c F sml =
+      (List.range (min ncols F.L.n)).foldl (growthStep A (invPerm perm_c A.n) F) (1 / sml)) :
+    pivotGrowth (R := Rat) ncols A perm_c F sml ≤ 1 / sml ∧
+    (∀ j, j < min ncols F.L.n → pivotGrowth (R := Rat) ncols A perm_c F sml ≤ growthRatio A (invPerm perm_c A.n) F j) ∧
+    (pivotGrowth (R := Rat) ncols A perm_c F sml = 1 / sml ∨
+      ∃ j, j < min ncols F.L.n ∧ growthRatio A (invPerm perm_c A.n) F j = pivotGrowth (R := Rat) ncols A perm_c F sml) := by
+  have hfun : growthStep A (invPerm perm_c A.n) F = fun acc j => min acc (growthRatio A (invPerm perm_c A.n) F j) := by
+    funext acc j; exact growthStep_eq_min _ _ _ _ _
+  rw [hspec, hfun]
+  exact ⟨scan_min_le_init _ _ _, fun j hj => scan_min_le _ _ _ j hj, scan_min_attained _ _ _⟩
+
+/-- the hypotheses of `pivotGrowth_spec` hold for every (L, U) pair accepted by the structural checker
+`Slu.Struct.wfb` (C03, no ILU relaxation) — in particular for every factorization `[sdcz]gstrf` returns
+with `info = 0` -/
+theorem pivotGrowth_spec_wf (ncols : Nat) (A : CSC Rat) (perm_c : Array Nat) (F : LUFac Rat) (sml : Rat)
+    (hn : F.L.n ≠ 0) (hsq : F.L.m = F.L.n) (hwf : Slu.Struct.wfb F false = true) :
+    pivotGrowth (R := Rat) ncols A perm_c F sml =
+      (List.range (min ncols F.L.n)).foldl (growthStep A (invPerm perm_c A.n) F) (1 / sml) := by
+  have H := Slu.Kernels.layout_of_wfb F false hn hsq hwf
+  have hnd := Slu.Kernels.ucol_nodup_of_wfb F hn hwf
+  have g : ∀ (a : Array Nat) (i : Nat), a.getD i 0 = a[i]! := fun a i => (Slu.Kernels.getElem!_nat a i).symm
+  apply pivotGrowth_spec
+  · rw [g]; exact H.first
+  · rw [g]; exact H.last
+  · intro k hk
+    have G := H.sn k hk
+    have h1 := G.wpos; have h2 := G.hi
+    simp only [g]
+    show (Slu.Kernels.snode F.L k).fsupc < F.L.xsup[k + 1]!
+    omega
+  · intro k hk d hd
+    have G := H.sn k hk
+    simp only [g] at hd ⊢
+    have hd' : d < (Slu.Kernels.snode F.L k).nsupc := hd
+    have hf := G.fsupc_col d hd'
+    refine ⟨hf, G.xlu d hd', ?_, hnd _ (by have := G.hi; have := G.le_n; show (Slu.Kernels.snode F.L k).fsupc + d < F.L.n; omega),
+      G.uabove d hd'⟩
+    show F.L.nsupr ((Slu.Kernels.snode F.L k).fsupc + d) = _
+    unfold SNode.nsupr
+    rw [hf]; rfl
+
+/-- non-vacuity of `pivotGrowth_spec_wf`: a 3 x 3 factor with one 2-column supernode and a singleton
+passes the checker, so the scan is the flat fold for every `ncols`, `A`, `perm_c`, `smlnum` -/
+def exG : LUFac Rat :=
+  { L := { m := 3, n := 3, nsuper := 1, xsup := #[0, 2, 3], supno := #[0, 0, 1], xlsub := #[0, 3, 3, 4],
+           lsub := #[0, 1, 2, 2], xlusup := #[0, 3, 6, 7], lusup := #[2, 1, 3, 4, 5, 6, 7] },
+    U := { m := 3, n := 3, colptr := #[0, 0, 0, 2], rowind := #[0, 1], val := #[8, 9] },
+    nnzL := 6, nnzU := 6 }
+example (ncols : Nat) (A : CSC Rat) (perm_c : Array Nat) (sml : Rat) :
+    pivotGrowth (R := Rat) ncols A perm_c exG sml =
+      (List.range (min ncols 3)).foldl (growthStep A (invPerm perm_c A.n) exG) (1 / sml) :=
+  pivotGrowth_spec_wf ncols A perm_c exG sml (by decide) rfl (by decide +kernel)
+
 end Slu.Cond
 namespace Slu.Lacon
 open Slu
@@ -200,5 +321,12 @@ example : (run primQ (fun x => x.map (2 * ·)) (fun x => x.map (2 * ·)) maxCall
 example : (run primQ (fun x => x.map (2 * ·)) (fun x => x.map (2 * ·)) maxCalls (init primQ 4 0)).kase = 0 := by decide +kernel
 example : Lawful primQ := primQ_lawful
 example : Lawful primQC := primQC_lawful
+/-- the extra hypothesis of `lacon_ge_low` / `rcond_le_one` holds for both exact instances -/
+example : ∀ x : Array Rat, 0 < x.size → primQ.imax x < x.size := primQ_imax
+example : ∀ x : Array (Cx Rat), 0 < x.size → primQC.imax x < x.size := primQC_imax
+/-- `rcond_le_one` on the identity: the solves are the identity, `anorm = 1` -/
+example : gscon primQ 0 1 true id id 3 1 ≤ 1 :=
+  (rcond_le_one primQ primQ_lawful primQ_imax 3 (by decide) true id id (fun _ h => h) (fun _ h => h) 1 (by norm_num)
+    (fun x _ => by simp)).2
 
 end Slu.Lacon
